@@ -232,6 +232,8 @@ impl<Key, Value> CommandExecutor<Key, Value>
                 put_with_ttl_parameter.put_parameter.key_description.id,
                 put_with_ttl_parameter.ttl,
             );
+            #[cfg(cached_verif)]
+            crate::cache::verif::point("worker.put_ttl.after_store_insert");
             put_with_ttl_parameter.ttl_ticker.put(
                 put_with_ttl_parameter.put_parameter.key_description.id,
                 expiry,
